@@ -6,18 +6,18 @@ namespace Kalign
 open List
 
 theorem cmpLenName_le_iff (la : Nat) (na : Name) (lb : Nat) (nb : Name) :
-    cmpLenName la na lb nb ≤ 0 ↔ la > lb ∨ (la = lb ∧ strncmp msaNameLen na nb < 0) := by
+    cmpLenName la na lb nb ≤ 0 ↔ la > lb ∨ (la = lb ∧ strcmp na nb < 0) := by
   unfold cmpLenName
   by_cases h1 : la > lb
   · simp [h1]
   · by_cases h2 : la = lb
-    · by_cases h3 : strncmp msaNameLen na nb < 0
+    · by_cases h3 : strcmp na nb < 0
       · simp [h2, h3]
       · simp [h2, h3]
     · simp [h1, h2]
 
 /-- the sort key of `msa_sort_len_name` -/
-def lenNameKey (len : Nat) (name : Name) : Nat × Name := (len, name.take msaNameLen)
+def lenNameKey (len : Nat) (name : Name) : Nat × Name := (len, name)
 
 variable {α : Type}
 
@@ -34,9 +34,9 @@ theorem sortLenNameBy_perm (len : α → Nat) (name : α → Name) {l₁ l₂ : 
     intro a b ha hb hk
     simp only [Bool.or_eq_true, decide_eq_true_eq, cmpLenName_le_iff]
     by_cases hl : len a = len b
-    · have hne : (name a).take msaNameLen ≠ (name b).take msaNameLen := by
+    · have hne : name a ≠ name b := by
         intro h; apply hk; simp [lenNameKey, hl, h]
-      rcases strncmp_total msaNameLen _ _ (hnul a ha) (hnul b hb) hne with h | h
+      rcases strcmp_total _ _ (hnul a ha) (hnul b hb) hne with h | h
       · exact Or.inl (Or.inr ⟨hl, h⟩)
       · exact Or.inr (Or.inr ⟨hl.symm, h⟩)
     · rcases Nat.lt_or_gt_of_ne hl with h | h
@@ -49,7 +49,7 @@ theorem sortLenNameBy_perm (len : α → Nat) (name : α → Name) {l₁ l₂ : 
     · exact Or.inl (by omega)
     · exact Or.inl (by omega)
     · exact Or.inl (by omega)
-    · exact Or.inr ⟨by omega, strncmp_trans_lt _ _ _ _ s1 s2⟩
+    · exact Or.inr ⟨by omega, strcmp_trans_lt _ _ _ s1 s2⟩
   · -- antisymmetry (the comparator is strict: both directions never hold)
     intro a b _ _ h1 h2
     simp only [decide_eq_true_eq, cmpLenName_le_iff] at h1 h2
@@ -58,7 +58,7 @@ theorem sortLenNameBy_perm (len : α → Nat) (name : α → Name) {l₁ l₂ : 
     · omega
     · omega
     · omega
-    · have := strncmp_swap msaNameLen (name a) (name b); omega
+    · have := strcmp_swap (name a) (name b); omega
 
 /-! ## essential input check -/
 
